@@ -65,6 +65,73 @@ def represent(x):
     return x
 
 
+class NumLike(object):
+    """an integer the way numeric libraries hand them out (numpy.uint64 and friends): not an int subclass, no int methods
+    (to_bytes, bit_length), but __index__ / __int__, arithmetic, bit operators and comparisons"""
+    __slots__ = ("v",)
+
+    def __init__(self, v):
+        self.v = int(v)
+
+    def __index__(self):
+        return self.v
+
+    __int__ = __index__
+
+    def __bool__(self):
+        return bool(self.v)
+
+    def __hash__(self):
+        return hash(self.v)
+
+    def __repr__(self):
+        return "NumLike(%d)" % self.v
+
+
+def _numlike_ops():
+    import operator
+    for name in ("add", "sub", "mul", "floordiv", "mod", "lshift", "rshift", "and", "or", "xor"):
+        op = getattr(operator, name + "_" if name in ("and", "or") else name)
+        setattr(NumLike, "__%s__" % name, (lambda op: lambda a, b: NumLike(op(a.v, int(b))))(op))
+        setattr(NumLike, "__r%s__" % name, (lambda op: lambda a, b: NumLike(op(int(b), a.v)))(op))
+    for name in ("eq", "ne", "lt", "le", "gt", "ge"):
+        op = getattr(operator, name)
+
+        def cmp(a, b, op=op):
+            try:
+                return op(a.v, int(b))
+            except (TypeError, ValueError):
+                return NotImplemented
+        setattr(NumLike, "__%s__" % name, cmp)
+    NumLike.__neg__ = lambda a: NumLike(-a.v)
+    NumLike.__invert__ = lambda a: NumLike(~a.v)
+
+
+_numlike_ops()
+
+
+def numlike(x):
+    """every plain integer value (not bool, not dictionary keys) replaced by a NumLike"""
+    if isinstance(x, dict):
+        return {k: numlike(v) for k, v in x.items()}
+    if isinstance(x, list):
+        return [numlike(v) for v in x]
+    if type(x) is int:
+        return NumLike(x)
+    return x
+
+
+def same_list_numlike(build, buf, cdb, tag, where):
+    try:
+        c2 = build()
+        b2, c2 = bytes(c2.dataout), bytes(c2.cdb)
+    except Exception as e:   # noqa: BLE001
+        return [("%s/integer_like_values" % tag, "%s: the same values as integer-like objects (__index__, operators; no int methods) raised %s: %s" % (where, type(e).__name__, e))]
+    if b2 != buf or c2 != cdb:
+        return [("%s/integer_like_values" % tag, "%s: the same values as integer-like objects give another list / CDB" % where)]
+    return []
+
+
 def mappingize(x, kind):
     """the same parameter values in other dict types callers really use: collections.defaultdict (a missing key springs into
     existence as an empty list / a nested tree when somebody probes it), OrderedDict"""
@@ -198,6 +265,7 @@ def run_case(case, obs=None):
         if not out:
             out += same_list_again(lambda: CS.get_class(name)(opcode_of(name), represent(data), pf=represent(pf), sp=represent(sp)), buf, bytes(cmd.cdb), name, where)
             out += same_list_mapping(lambda kind: CS.get_class(name)(opcode_of(name), mappingize(data, kind), pf=pf, sp=sp), buf, bytes(cmd.cdb), name, where)
+            out += same_list_numlike(lambda: CS.get_class(name)(opcode_of(name), numlike(data), pf=pf, sp=sp), buf, bytes(cmd.cdb), name, where)
             out += same_list_iter(lambda: CS.get_class(name)(opcode_of(name), iterize(data), pf=pf, sp=sp), buf, name, where)
             out += same_list_iter(lambda: CS.get_class(name)(opcode_of(name), reyield(data), pf=pf, sp=sp), buf, name + "/scratch", where)
             # a page_0 format page described with its (non-existent) subpage spelled out as 00h: the same page, the same list
@@ -269,6 +337,7 @@ def run_case(case, obs=None):
                 kw2["transport_ids"] = copy.deepcopy(tids)
             out += same_list_again(lambda: CS.get_class(name)(opcode_of(name), sa, 0, 1, **represent(kw2)), buf, bytes(cmd.cdb), "prout", where)
             out += same_list_mapping(lambda kind: CS.get_class(name)(opcode_of(name), sa, 0, 1, **{k: mappingize(v, kind) for k, v in kw2.items()}), buf, bytes(cmd.cdb), "prout", where)
+            out += same_list_numlike(lambda: CS.get_class(name)(opcode_of(name), sa, 0, 1, **numlike(kw2)), buf, bytes(cmd.cdb), "prout", where)
             out += same_list_iter(lambda: CS.get_class(name)(opcode_of(name), sa, 0, 1, **iterize(kw2)), buf, "prout", where)
             out += same_list_iter(lambda: CS.get_class(name)(opcode_of(name), sa, 0, 1, **reyield(kw2)), buf, "prout/scratch", where)
         return out + pll_check(name, cmd, where)
@@ -326,6 +395,7 @@ def run_case(case, obs=None):
             kw2["inline_data"] = bytearray(inline)
             out += same_list_again(lambda: CS.get_class(name)(opcode_of(name), **represent(kw2)), buf, bytes(cmd.cdb), "xcopy%d" % ver, where)
             out += same_list_mapping(lambda kind: CS.get_class(name)(opcode_of(name), **{k: mappingize(v, kind) for k, v in kw2.items()}), buf, bytes(cmd.cdb), "xcopy%d" % ver, where)
+            out += same_list_numlike(lambda: CS.get_class(name)(opcode_of(name), **numlike(kw2)), buf, bytes(cmd.cdb), "xcopy%d" % ver, where)
             out += same_list_iter(lambda: CS.get_class(name)(opcode_of(name), **iterize(kw2)), buf, "xcopy%d" % ver, where)
             out += same_list_iter(lambda: CS.get_class(name)(opcode_of(name), **reyield(kw2)), buf, "xcopy%d/scratch" % ver, where)
         return out + pll_check(name, cmd, where)
